@@ -1,3 +1,22 @@
+(* Properties/Properties_C14.v — allocation histories.  Statements only; models in Sys/Alloc.v,
+   proofs in Sys/AllocInv.v.  PARTIAL at this commit: the invariant is proven for the block-cache
+   layer (m4ri_mmc_malloc / free / cleanup); the header cache and the lift to arbitrary histories of
+   mzd_init / window / free / fini are being proven (see DESIGN.md C14). *)
+From Coq Require Import List NArith.
 From M4 Require Import Sys.Alloc Sys.AllocInv.
-Theorem C14_stub : True. Proof. exact stub. Qed.
-Print Assumptions C14_stub.
+
+Theorem C14_mmc_malloc_partial : forall p s held hx sz s' d ev,
+  Inv p s held hx -> sz <> 0%N -> mmc_malloc p s sz = (s', d, ev) ->
+  Inv p s' (d :: held) hx /\ evs_ok s ev s' /\ hrel s s' /\
+  st_hb s' = st_hb s /\ st_cur s' = st_cur s /\ st_mats s' = st_mats s /\
+  (exists b, heap_find (st_heap s') d = Some b /\ b_size b = sz).
+Proof. exact mmc_malloc_inv. Qed.
+Print Assumptions C14_mmc_malloc_partial.
+
+Theorem C14_mmc_cleanup_partial : forall p s held hx s' ev,
+  Inv p s held hx -> mmc_cleanup p s = (s', ev) ->
+  Inv p s' held hx /\ evs_ok s ev s' /\ hrel s s' /\
+  st_hb s' = st_hb s /\ st_cur s' = st_cur s /\ st_mats s' = st_mats s /\
+  (enable_mmc p = true -> forall x, cnt (flat_map slot_ids (st_mmc s')) x = 0%nat).
+Proof. exact mmc_cleanup_inv. Qed.
+Print Assumptions C14_mmc_cleanup_partial.
